@@ -6,8 +6,8 @@ import RichModel.Lemmas.ConcStable
 # C11 — Console output is thread-safe under every interleaving
 
 Property theorems only.  The model is `Model/Conc.lean`: any number of threads, each running any program
-over {print/log, capture, update(+refresh), refresh, start, stop, advance} on one console with a Live or
-Progress display (or none); a schedule is any list of thread ids; one step = one atomic action (a lock
+over {print/log, capture, export (clearing or not), update(+refresh), refresh, start, stop, advance} on one
+console with a Live or Progress display (or none); a schedule is any list of thread ids; one step = one atomic action (a lock
 operation, one access to the shared display / hook list / record, one `file.write`, or a thread-local
 statement).  All theorems quantify over **every** schedule, every number of threads, every program.
 
@@ -21,6 +21,17 @@ Finding F22 (print computes its erase sequence before another thread changes the
 repair exists, so `live_screen_under_schedules_partial` is stated for sessions whose frames all have one
 height, and `old_print_vs_taller_refresh_breaks_screen` is the machine-checked witness schedule for the
 general statement (kept visible below).
+
+One variant flag, `Cfg.stopTailUnlocked` (harness constant `STOP_TAIL_UNLOCKED`, value 1): `true` = the
+`Progress.stop` of rich 9.10.0 as found, which /repo still has (known finding `progress-stop-tail-vs-start`, not
+repaired); `old_progress_stop_tail_races_start` is its witness schedule.  Every other theorem is stated for
+an arbitrary `cfg`, i.e. for both values of the flag.
+
+18 theorems: `reach_inv`, `reach_out` (invariants); `lock_order_acyclic`, `no_deadlock`, `no_internal_error`,
+`write_mutual_exclusion`; `write_own_output_only`, `output_exactly_once`, `finished_thread_flushed`,
+`write_per_print`, `capture_isolated`; `record_order_eq_file_order`, `exports_partition_the_record`,
+`export_reads_a_stable_record`, `record_eq_file_when_quiet`; `live_screen_under_schedules_partial`; the two
+witnesses `old_print_vs_taller_refresh_breaks_screen`, `old_progress_stop_tail_races_start`.
 -/
 namespace RichModel.C11
 open RichModel RichModel.Screen RichModel.Conc
